@@ -392,11 +392,14 @@ def main():
     if hasattr(props, 'extra_checks'):
         extra = props.extra_checks(prop, tier, results)
     known = load_known()
-    kf = {f['obligation']: f for f in known.get('findings', []) if f['property'] == prop}
+    kf = {f['obligation']: f for f in known.get('findings', []) if f['property'] == prop or prop in f.get('also', [])}
+    # a finding recorded against a property this one builds on is neither a violation of this property nor reported under its name
+    kf_dep = {f['obligation']: f for f in known.get('findings', []) if f['property'] in deps and f['obligation'] not in kf}
     undecided = [r for r in results if r['status'] != 'ok']
     lock_missing = check_lock(results)
     violations = []
     knownhits = []
+    dephits = []
     n_obl = 0
     n_dis = 0
     samples = []
@@ -412,6 +415,8 @@ def main():
                 failing_ids.add(f['id'])
                 if f['id'] in kf:
                     knownhits.append((f, kf[f['id']]))
+                elif f['id'] in kf_dep:
+                    dephits.append((f, kf_dep[f['id']]))
                 else:
                     violations.append((r, f))
         labs = [l for l, tg in r['labels'].items() if set(deps) & set(tg)]
@@ -434,6 +439,8 @@ def main():
         for v in e.get('violations', []):
             if v['id'] in kf:
                 knownhits.append((v, kf[v['id']]))
+            elif v['id'] in kf_dep:
+                dephits.append((v, kf_dep[v['id']]))
             else:
                 violations.append(({'unit': e['name'], 'generated': e.get('artifact')}, v))
         if e.get('undecided'):
@@ -488,6 +495,7 @@ def main():
                               'note': 'a verifier run is reused only when the generated file (regenerated from /repo on this run) and the command line are byte-identical to an earlier run; set VERIF_NOCACHE=1 to force re-verification'},
             'extra_checks': [{k: v for k, v in e.items() if k not in ('violations',)} for e in extra],
             'known_findings_reported': [k['what'] for _, k in knownhits],
+            'known_findings_of_properties_this_one_builds_on': ['%s: %s' % (k['property'], k['obligation']) for _, k in dephits],
             'not_decided': spec.get('not_decided', []),
             'builds_on': spec.get('depends', []),
             'bounded': spec.get('bounded', []) + ['%s: %s -- bound: %s -- %s (%s, never counted as proved)' % (h['id'], h['claim'], h['bound'], h['status'], 'exhaustive native enumeration, %s executions' % h.get('executions') if h['kind'] == 'enum' else 'Kani/CBMC')
